@@ -397,7 +397,8 @@ template<class F> static std::string desc_num(const F * f, char letter)
 }
 static std::string desc_bb(const ConstByteBufferRef & r)
 {
-   if ((r() == NULL)||(r()->GetBuffer() == NULL)) return "-";
+   if (r() == NULL) return "-";
+   if ((r()->GetBuffer() == NULL)||(r()->GetNumBytes() == 0)) return "";     // an empty buffer (only ever an assumed-default given through the C++ API)
    return hex(r()->GetBuffer(), r()->GetNumBytes());
 }
 static std::string desc_kids(const Queue<ConstQueryFilterRef> & q)
